@@ -133,3 +133,13 @@ Proof.
   split; [exact G3|]. split; [reflexivity|]. split; [exact S1|]. split; [exact N2|].
   intro H. apply N2. apply (H ex_eps_fuzzer (renum 0 ex_eps_fuzzer) G2 G3 eq_refl). exact S1.
 Qed.
+
+(* non-vacuity of mutant_is_run: the identity stream (zero mutation steps) and one real step of
+   C12's transition system (swap of two subtrees with equal labels is not available in ex_g, so:
+   the stream that always delivers the input) *)
+Example mutant_is_run_ex : mutant_is_run ex_g (fun inp _ => Ok inp) /\ mutant_valid ex_g (fun inp _ => Ok inp).
+Proof.
+  assert (H : mutant_is_run ex_g (fun inp _ => Ok inp)).
+  { intros inp k m E. inversion E; subst. apply Mutate.ms_refl. }
+  split; [exact H|]. exact (mutant_valid_c12 ex_g _ (proj1 cx_gram_ok) H).
+Qed.
